@@ -406,6 +406,22 @@ impl<'tcx> Dumper<'tcx> {
                 }
             }
         }
+        if let (ty::Adt(..), Const::Unevaluated(uv, _)) = (ty.kind(), c.const_) {
+            // a named plain-data constant used by value (e.g. `let e = general_purpose::STANDARD;`): dump its bytes like the by-reference case
+            if uv.promoted.is_none() {
+                if let Ok(ConstValue::Indirect { alloc_id, offset }) = c.const_.eval(tcx, tenv, rustc_span::DUMMY_SP) {
+                    if let Some(mir::interpret::GlobalAlloc::Memory(m)) = tcx.try_get_global_alloc(alloc_id) {
+                        let a = m.inner();
+                        let start = offset.bytes() as usize;
+                        if start <= a.len() && a.len() - start <= 1024 && a.provenance().ptrs().is_empty() {
+                            let bytes = a.inspect_with_uninit_and_ptr_outside_interpreter(start..a.len());
+                            let hex: String = bytes.iter().map(|b| format!("{:02x}", b)).collect();
+                            items.push(("pb", js(&hex)));
+                        }
+                    }
+                }
+            }
+        }
         jobj(&items)
     }
 
